@@ -392,6 +392,31 @@ fn kernel_buffers(maxlen: usize) -> Vec<Vec<u8>> {
                 }
             }
         }
+        // block-scalar shapes with TWO adjacent line breaks of every kind (`\n\n`, `\n\r`, `\r\n`, `\r\r`: a blank
+        // line; mixed break kinds are legal) followed by j spaces and dedented / indented content, at every position
+        if l >= 8 {
+            for i in 0..l - 4 {
+                for j in [0usize, 1, 2, 3] {
+                    if i + 2 + j < l {
+                        for b1 in [b'\n', b'\r'] {
+                            for b2 in [b'\n', b'\r'] {
+                                let mut b = vec![b'a'; l];
+                                if i >= 2 {
+                                    b[0] = b' ';
+                                    b[1] = b' ';
+                                }
+                                b[i] = b1;
+                                b[i + 1] = b2;
+                                for x in b.iter_mut().skip(i + 2).take(j) {
+                                    *x = b' ';
+                                }
+                                out.push(b);
+                            }
+                        }
+                    }
+                }
+            }
+        }
     }
     out
 }
